@@ -249,6 +249,24 @@ def sort_comparators():
     return out
 
 
+def sort_ties():
+    """the SAME pattern (needle, regex, regex set, automaton) on two or three different fields of one
+    or-group: every key the sorts of shake_1 look at is tied, so the output order is whatever the
+    maps yield -- it must be the same on every call, and the order matters under all()/of()/not"""
+    out = []
+    docs = [{"cmd": "good"}, {"parent": "good"}, {"cmd": "evil"}, {"parent": "evilx", "cmd": "good"}, {"cmd": "good", "parent": "good", "user": "good"},
+            {"user": "evil"}, {}, {"cmd": ["good", "evil"]}, {"cmd": 5, "parent": "evil"}]
+    for p in ("?^evil", "i?^EVIL", "evil*", "*evil", "*evil*", "evil", "ievil*", ["?^evil", "?vil$"], ["evil*", "*vil"], ["ievil*", "i*vil"],
+              ["?^evil", "evil*"]):
+        seq = [{"cmd": p}, {"parent": p}, {"user": p}]
+        for cond in ("A", "not A", "all(A)", "not all(A)", "of(A, 2)", "not of(A, 1)", "of(A, 0)"):
+            out.append(({"A": seq, "condition": cond}, docs))
+        out.append(({"A": {"cmd": p}, "B": {"parent": p}, "C": {"user": p}, "condition": "not (A or B or C)"}, docs))
+        out.append(({"A": {"n": {"cmd": p}}, "B": {"m": {"cmd": p}}, "C": {"k": {"cmd": p}}, "condition": "not (A and B and C)"},
+                    [{"n": {"cmd": "evil"}}, {"m": {"cmd": "good"}}, {"n": {"cmd": "evil"}, "m": {"cmd": "evil"}, "k": {"cmd": "x"}}, {}]))
+    return out
+
+
 def already_optimised():
     out = []
     docs = [{"f": "foo"}, {"f": "xfoo", "g": "bar"}, {}]
@@ -277,7 +295,7 @@ def loader_errors():
 FAMILIES = [("scalar_casts", scalar_casts), ("list_casts", list_casts), ("cond_casts", cond_casts),
             ("quantified_cast_bodies", quantified_cast_bodies), ("many_needles", many_needles), ("nested_matrix", nested_matrix), ("nested_and_merge", nested_and_merge), ("wide_matrix", wide_matrix),
             ("wide_matrix_quant", wide_matrix_quant), ("matrix_duplicate_fields", matrix_duplicate_fields),
-            ("sort_comparators", sort_comparators), ("already_optimised", already_optimised), ("loader_errors", loader_errors)]
+            ("sort_comparators", sort_comparators), ("sort_ties", sort_ties), ("already_optimised", already_optimised), ("loader_errors", loader_errors)]
 
 
 def all_cases(skip=()):
